@@ -5,7 +5,7 @@ From PegV Require Import Base.Tac Spec.Syntax Spec.Peg Model.Machine Model.Gen P
     maxToken, position) and a fresh object [st0'] give, after Reset, the same verdict, position,
     tokens and error token. *)
 Theorem C12_reuse_is_fresh :
-  forall g ptx buf penv, good_grammar g -> good_buf buf ->
+  forall g ptx buf penv, good_grammar g -> good_buf buf -> good_switches g ->
   forall memo inline n r st0 st0' rr,
     slot_ok g inline r -> peg_parse g ptx buf penv n r = Some rr ->
     exists b st1 st2,
